@@ -144,4 +144,40 @@ example : normalise [(1, "A"), (2, "B")] = .ok [(1, "A"), (2, "B"), (0, "Unknown
 example : normalise [(0, "Zero")] = .error .valueError := by rfl
 example : fits32 2147483647 = true ∧ fits32 2147483648 = false := by decide
 
+/-! ### Arrays shorter than the geometry: the gap is the no-data code (array level, any length) -/
+
+theorem padTo_length {α} (nan : α) (n : Nat) (xs : List α) (h : xs.length ≤ n) : (padTo nan n xs).length = n := by
+  simp [padTo]; omega
+
+theorem padTo_prefix {α} (nan : α) (n : Nat) (xs : List α) (i : Nat) (h : i < xs.length) :
+    (padTo nan n xs)[i]? = xs[i]? := by
+  simp [padTo, List.getElem?_append_left h]
+
+theorem padTo_gap {α} (nan : α) (n : Nat) (xs : List α) (i : Nat) (h1 : xs.length ≤ i) (h2 : i < n) :
+    (padTo nan n xs)[i]? = some nan := by
+  unfold padTo
+  rw [List.getElem?_append_right h1, List.getElem?_replicate]
+  have : i - xs.length < n - xs.length := by omega
+  simp [this]
+
+/-- **Gaps of float data**: every entry beyond the array given is stored as the float no-data code and reads as NaN. -/
+theorem gap_float (ndv : Rat) (n : Nat) (xs : List Flt) (i : Nat) (h1 : xs.length ≤ i) (h2 : i < n) :
+    ((padTo Flt.nan n xs).map (encF ndv))[i]? = some (.fin ndv)
+    ∧ ((padTo Flt.nan n xs).map fun x => decF ndv (encF ndv x))[i]? = some .nan := by
+  simp only [List.getElem?_map, padTo_gap Flt.nan n xs i h1 h2, Option.map_some]
+  constructor <;> simp [encF, decF]
+
+/-- **Gaps of integer data**: every entry beyond the array given is the integer no-data code, whatever the dtype given. -/
+theorem gap_int (checked : Bool) (n : Nat) (xs : List NumIn) (i : Nat) (h1 : xs.length ≤ i) (h2 : i < n) :
+    ((padTo NumIn.nan n xs).map (encI checked))[i]? = some (.ok intNdv) := by
+  simp only [List.getElem?_map, padTo_gap NumIn.nan n xs i h1 h2, Option.map_some]
+  rfl
+
+/-- the entries given keep their own encoding: padding never touches them -/
+theorem prefix_kept {α β} (nan : α) (f : α → β) (n : Nat) (xs : List α) (i : Nat) (h : i < xs.length) :
+    ((padTo nan n xs).map f)[i]? = (xs.map f)[i]? := by
+  simp only [List.getElem?_map, padTo_prefix nan n xs i h]
+
+example : (padTo Flt.nan 4 [.fin 1, .inf true]).map (encF 7) = [.fin 1, .inf true, .fin 7, .fin 7] := by decide
+
 end GeoVerif.Codec
